@@ -114,6 +114,7 @@ def main():
     shutil.rmtree(other, ignore_errors=True)
     if m:
         ck.cov["oracle_queries"] = m.queries
+        ck.cov["model_runs_skipped"] = m.skipped
         m.close()
     impl.cleanup()
     ck.cov["traces_validated_against_impl"] = hist["model_runs"]
